@@ -215,6 +215,13 @@ func x64Normalize(d dis, opBytes int) dis {
 		}
 		out.args = append(out.args, a)
 	}
+	// the D0/D1 "shift by one" forms are printed without their count by llvm-mc
+	switch out.op {
+	case "shl", "shr", "sar", "rol", "ror":
+		if len(out.args) == 1 {
+			out.args = append(out.args, "#1")
+		}
+	}
 	// "imul r, imm" is the assemblers' shorthand for "imul r, r, imm"
 	if out.op == "imul" && len(out.args) == 3 && out.args[0] == out.args[1] && strings.HasPrefix(out.args[2], "#") {
 		out.args = []string{out.args[0], out.args[2]}
@@ -548,12 +555,58 @@ func x64WidenBase(addr string) string {
 // x64Key names a finding: operand-size handling is shared by all
 // instructions (BuildProg takes the size of the widest operand and
 // operand2P9Addr drops the rest), so those aspects get one key each.
-func x64Key(mn, aspect string) string {
+func x64Key(k kase, aspect string) string {
 	switch aspect {
-	case "reg-width", "high8-rex", "mem-base32", "mem-size", "imm32-sext":
+	case "high8-rex", "mem-base32", "imm32-sext":
 		return "x64/any/" + aspect
+	case "reg-width", "mem-size":
+		// the shared defect is "sizes of ill-sized operand lists are ignored".
+		// A well-sized operand list that comes back at another width (e.g. a
+		// dropped REX.W) is a different defect and keeps its own key.
+		if x64IllSized(k) {
+			return "x64/any/" + aspect
+		}
 	}
-	return "x64/" + mn + "/" + aspect
+	return "x64/" + k.As + "/" + aspect
+}
+
+// x64IllSized: the operand list mixes operand sizes, or gives an operand of an
+// instruction with an architecturally fixed operand size another size
+// (SETcc: byte; CALL/JMP/PUSH/POP/MOVABS: 64 bit; shift/rotate count: cl).
+func x64IllSized(k kase) bool {
+	sizes := map[int]bool{}
+	for i, o := range k.Ops {
+		sz := 0
+		switch o.Kind {
+		case "reg":
+			if _, w, ok := x64Family(o.Reg); ok {
+				sz = w
+			}
+		case "mem":
+			sz = o.Ptr
+		}
+		if sz == 0 {
+			continue
+		}
+		op := x64CanonOp(k.As)
+		switch {
+		case strings.HasPrefix(op, "set"):
+			if sz != 1 {
+				return true
+			}
+		case op == "call" || op == "jmp" || op == "push" || op == "pop" || k.As == "movabs":
+			if sz != 8 {
+				return true
+			}
+		case (op == "shl" || op == "shr" || op == "sar" || op == "rol" || op == "ror") && i == 1:
+			if sz != 1 {
+				return true
+			}
+			continue
+		}
+		sizes[sz] = true
+	}
+	return len(sizes) > 1
 }
 
 // ---------------------------------------------------------------- oracle
@@ -614,7 +667,7 @@ func x64Check(k kase, mode llvmMode) (v verdict) {
 		if mode == llvmNever && llvmPath() != "" {
 			v.needLLVM = true
 			for _, a := range aspXa {
-				v.cand = append(v.cand, finding{x64Key(k.As, a), desc})
+				v.cand = append(v.cand, finding{x64Key(k, a), desc})
 			}
 			indep = aspXa
 			goto own
@@ -635,7 +688,7 @@ func x64Check(k kase, mode llvmMode) (v verdict) {
 				texts += " | llvm-mc: " + ll.String()
 			}
 			for _, a := range as {
-				v.add(x64Key(k.As, a), "%s; expected %q, independent decoders: %s", desc, want.String(), texts)
+				v.add(x64Key(k, a), "%s; expected %q, independent decoders: %s", desc, want.String(), texts)
 			}
 		}
 		switch {
